@@ -274,12 +274,13 @@ def rule_data(ctx, p: Project, K: KEval):
     m = p.func("autoarray.inversion.inversion.imaging.mapping:InversionImagingMapping.mapped_reconstructed_data_dict")
     calls = [c for c in m.calls() if norm_text(c.func).endswith("mapped_reconstructed_data_via_mapping_matrix_from")]
     loops = [n for n in m.node.body if isinstance(n, ast.For)]
-    ok = len(calls) == 1 and len(loops) == 1 and norm_text(loops[0].iter) == "enumerate(self.linear_obj_list)"
+    ok = len(calls) == 1 and len(loops) == 1
     if ok:
-        iv, ov = [norm_text(x) for x in loops[0].target.elts]
-        kw = wire.kwr(m, calls[0])   # name-free: the per-iteration temporaries and the two tables are inlined
-        ok = kw.get("mapping_matrix") == f"self.operated_mapping_matrix_list[{iv}]" and kw.get("reconstruction") == f"self.source_quantity_dict_from(source_quantity=self.reconstruction)[{ov}]"
-        st = [n for n in loops[0].body if isinstance(n, ast.Assign) and norm_text(n.targets[0]) == f"mapped_reconstructed_data_dict[{ov}]"]
+        # however the loop pairs the objects with their matrices (enumerate + index, zip, range(len)): element k of each list, written SEQ[__k__]
+        kw = {k_: wire.loop_canon(m, loops[0], v_) for k_, v_ in wire.kw(calls[0]).items()}
+        obj = "self.linear_obj_list[__k__]"
+        ok = kw.get("mapping_matrix") == "self.operated_mapping_matrix_list[__k__]" and kw.get("reconstruction") == f"self.source_quantity_dict_from(source_quantity=self.reconstruction)[{obj}]"
+        st = [n for n in ast.walk(loops[0]) if isinstance(n, ast.Assign) and isinstance(n.targets[0], ast.Subscript) and wire.loop_canon(m, loops[0], n.targets[0]) == f"mapped_reconstructed_data_dict[{obj}]"]
         ok = ok and len(st) == 1
     ctx.ob(rule, m.key, ok, where=m, node=calls[0] if calls else m.node, construct="M_list[index] x reconstruction_dict[linear_obj], stored under linear_obj",
            message="the model data of object k must be its own operated mapping matrix times its own slice of the reconstruction")
